@@ -218,6 +218,13 @@ def check_invocations(obs, ro, ref, prog, lazy_guard=None):
                 props = ['C03']
                 if prog['nodes'][node].get('start_of') or _in_any_sub(ref, node):
                     props.append('C11')
+                if kind == 'none_placeholder_arg':
+                    # whose value is missing: the result of a recurrent subgraph (C11), of a switch (C09), of a one-of (C10)
+                    for pn, mk in prog['nodes'][node].get('params', []):
+                        if rec['kwargs'].get(pn, 0) is None:
+                            extra = {'rec': 'C11', 'sw': 'C09', 'oneof': 'C10'}.get(mk[0])
+                            if extra and extra not in props:
+                                props.append(extra)
                 if kind == 'wrong_arg_names':
                     swp = {p for p, mk in prog['nodes'][node].get('params', []) if mk[0] == 'sw'}
                     expn = set(exp_nodes[node][0].kwargs)
@@ -227,6 +234,10 @@ def check_invocations(obs, ro, ref, prog, lazy_guard=None):
                 if wc:
                     out.append(F(['C09', 'C03'], 'wrong_case_routed', node=node, param=wc[0], got_case=wc[1],
                                  expected_case=wc[2]))
+                wo = _wrong_candidate(prog, node, rec['kwargs'], exp_nodes[node])
+                if wo:
+                    out.append(F(['C10', 'C03'], 'wrong_candidate_delivered', node=node, param=wo[0], got_candidate=wo[1],
+                                 expected_candidate=wo[2]))
                 out.append(F(props, kind, node=node, got=_short(rec['kwargs'], 400),
                              exp=[_short(x.kwargs, 400) for x in exp_nodes[node][:3]],
                              decl=sorted(decl)))
@@ -284,6 +295,24 @@ def _wrong_case(prog, node, kwargs, expected):
             p = diff[0]
             got, exp = _term_node(kwargs[p]), _term_node(e.kwargs[p])
             if got in sw[p] and exp in sw[p] and got != exp:
+                return (p, got, exp)
+    return None
+
+
+def _wrong_candidate(prog, node, kwargs, expected):
+    """The invocation agrees with an expected one on every argument except an InputOneOf parameter, whose value was
+    produced by another candidate than the first one (in declared order) that does not fail."""
+    oo = {p: set(m[1]) for p, m in prog['nodes'][node].get('params', []) if m[0] == 'oneof'}
+    if not oo:
+        return None
+    for e in expected:
+        if set(e.kwargs) != set(kwargs):
+            continue
+        diff = [p for p in kwargs if kwargs[p] != e.kwargs[p]]
+        if len(diff) == 1 and diff[0] in oo:
+            p = diff[0]
+            got, exp = _term_node(kwargs[p]), _term_node(e.kwargs[p])
+            if got in oo[p] and exp in oo[p] and got != exp:
                 return (p, got, exp)
     return None
 
